@@ -493,11 +493,37 @@ def harness_report(ctx, test_regex, report_name, env=None, timeout=1500, race=Fa
         except Exception:
             rep = None
     if rc != 0 or rep is None:
+        pn = library_panic(o)
+        if pn:
+            # the process died in the library's own code (a goroutine of its own, or a call the harness
+            # could not guard): the run itself - test, seed, tier - is the failing input
+            ctx.violation("process-panic:" + pn[0], "the process died in %s while the harness %s was running: %s" % (pn[0], test_regex, pn[1]),
+                          {"test": test_regex, "seed": ctx.seed, "tier": ctx.tier, "env": {k: v for k, v in (env or {}).items()}, "stack": pn[2]})
         ctx.broke("harness %s did not complete on the current tree (build error, panic or timeout)" % test_regex, tail_err(o, 80))
         return rep, o
     for v in rep.get("violations") or []:
         ctx.violation(v["key"], v["what"], v["replay"])
     return rep, o
+
+
+def library_panic(o):
+    """(function, message, stack excerpt) when the test process died of a Go panic / fatal error whose
+    first frame outside the runtime lies in the library's own source (not in an injected harness file)."""
+    m = re.search(r"(?m)^(panic: .*|fatal error: .*)$", o)
+    if not m:
+        return None
+    rest = o[m.start():]
+    frames = re.findall(r"(?m)^([\w./*()\[\]·-]+)\(.*\)\n\t(/[^\s:]+):(\d+)", rest)
+    for fn, path, line in frames:
+        base = os.path.basename(path)
+        if "/src/runtime/" in path or "/src/testing/" in path or "/src/sync/" in path or "/src/internal/" in path:
+            continue
+        if base.startswith("zz_verif_") or base.endswith("_test.go"):
+            return None  # the harness's own frame comes first: a guarded call would have been a finding already
+        if path.startswith(REPO + "/") or "/kcp-go" in path:
+            return (fn.split("/")[-1], m.group(1)[:200], rest[:1500])
+        return None
+    return None
 
 
 def driver_compare(ctx, engine, extracted, driver, log_name, what, extra_args=None, timeout=1500):
